@@ -29,6 +29,28 @@ def set_version(path, triple):
     con.close()
 
 
+def set_version_wal(path, triple):
+    """The same change made in write-ahead-log mode and left UN-CHECKPOINTED: the database file still holds the old triple, the
+    new one is in the -wal file next to it (Engine DJ running, or killed, or a folder copied together with its -wal file).  The
+    stored database state is the new triple.  Done by changing a scratch copy and copying file and -wal back while the writing
+    connection is still open (closing it would checkpoint)."""
+    work = path + ".walwork"
+    shutil.copy(path, work)
+    con = sqlite3.connect(work)
+    try:
+        con.execute("PRAGMA journal_mode = WAL")
+        con.execute("PRAGMA wal_autocheckpoint = 0")
+        con.execute("UPDATE Information SET schemaVersionMajor = ?, schemaVersionMinor = ?, schemaVersionPatch = ?", triple)
+        con.commit()
+        shutil.copy(work, path)
+        shutil.copy(work + "-wal", path + "-wal")
+    finally:
+        con.close()
+    for suf in ("", "-wal", "-shm"):
+        if os.path.exists(work + suf):
+            os.remove(work + suf)
+
+
 def marker_of(template_dir):
     con = sqlite3.connect(os.path.join(template_dir, "m.db"))
     try:
@@ -97,6 +119,25 @@ def run(ctx):
                 meta[cid] = (s, t, marker, v2)
                 loads.append({"id": cid, "ops": [{"op": "load", "dir": d}, {"op": "release_all"}]})
                 n += 1
+        # the same decision for libraries in write-ahead-log mode whose latest version change is still in the -wal file: every
+        # supported triple and a sample of the others, on every template
+        wal_triples = sorted(SUPPORTED) + ctx.rng.sample([t for t in box if t not in SUPPORTED and all(-2 ** 62 < x < 2 ** 62 for x in t)], 30)
+        for s in TEMPLATES:
+            v2 = s.startswith("2.")
+            marker = None if v2 else marker_of(tdirs[s])
+            for t in wal_triples:
+                d = os.path.join(root, "c%d" % n)
+                shutil.copytree(tdirs[s], d)
+                if v2:
+                    set_version_wal(os.path.join(d, "Database2", "m.db"), t)
+                else:
+                    set_version_wal(os.path.join(d, "m.db"), t)
+                    set_version_wal(os.path.join(d, "p.db"), t)
+                cid = "l%d" % n
+                meta[cid] = (s, t, marker, v2)
+                loads.append({"id": cid, "ops": [{"op": "load", "dir": d}, {"op": "release_all"}]})
+                n += 1
+                ctx.bump("libraries_whose_version_change_is_still_in_the_wal_file")
         # directory cases
         dcases = {}
         d_missing = os.path.join(root, "does-not-exist")
